@@ -139,12 +139,14 @@ def run(ctx):
             has_lf = any(b"\n" in n for n in names)
             lf_cases += has_lf
             cfg = []
-            if rng.random() < 0.5:
+            if rng.random() < 0.5 or it < 24:
                 gname = rng.choice(["My \"Group\"", "café", "a\\b", "x" * 100, "tab\there"])
                 # the group's symbol (the gitconfig subsection) is a name too: spaces, quotes, '%', and every character that
                 # means something to a regular expression or a glob
-                gsym = rng.choice(["mine", "mine", "Team A", "q\"uote", "al\\pha", "be(t)a", "gam++a", "de[l]ta", "open(", "cur{ly", "st*r?",
-                                   "a|b", "^hat$", "caf\u00e9", "50%d", "semi;colon", "ha#sh"])
+                GSYMS = ["mine", "mine", "Team A", "q\"uote", "al\\pha", "be(t)a", "gam++a", "de[l]ta", "open(", "cur{ly", "st*r?",
+                                   "a|b", "^hat$", "caf\u00e9", "50%d", "semi;colon", "ha#sh",
+                                   "a.b.c.d.e.f.g.h.i.j.k.l.m.n", "n.e.s.t.e.d.v.e.r.y.d.e.e.p.l.y.i.n.d.e.e.d", "x" * 200 + ".y"]
+                gsym = GSYMS[(it * 7) % len(GSYMS)] if it < 24 else rng.choice(GSYMS)       # every symbol is exercised in every run
                 cfg = [("refgroup.%s.name" % gsym, gname), ("refgroup.%s.include" % gsym, "refs/heads")]
             roots = [len(sc.objects) - 1, len(sc.objects) - 3]
             order = sc.enum_gitlike(roots)
